@@ -9,6 +9,8 @@ def text_edit(old, new):
         return src.replace(old, new, 1) if old in src else None
     return edit
 MUTANTS = [
+    Mutant('transit_bio_after_reset', O, text_edit("        comp = cb.set_bioavailability(comp, dosing_comp.bioavailability)\n        dosing_comp = cb.set_bioavailability(dosing_comp, Expr.integer(1))", "        dosing_comp = cb.set_bioavailability(dosing_comp, Expr.integer(1))\n        comp = cb.set_bioavailability(comp, dosing_comp.bioavailability)"), 'T8', 'copy after reset'),
+    Mutant('additional_closure_removed', 'src/pharmpy/model/statements.py', text_edit("        for add in additional.copy():\n            additional |= set(nx.dfs_preorder_nodes(graph, add))\n", ""), 'T9', 'protecting set not closed'),
     Mutant('inst_stale_system', O, text_edit("            # NOTE: The model could have been changed above\n            statements = model.statements\n            cs = get_and_check_odes(model)\n", ""), 'T7', 'system read before the model was re-bound'),
     Mutant('zo_abs_lagtime_unbound', O, text_edit("            to_comp = cb.set_lag_time(to_comp, depot.lag_time)\n            cb.set_bioavailability(to_comp, depot.bioavailability)", "            cb.set_lag_time(to_comp, depot.lag_time)\n            cb.set_bioavailability(to_comp, depot.bioavailability)"), 'T4', 'returned compartment dropped'),
     Mutant('find_depot_break', 'src/pharmpy/model/statements.py', text_edit("                if metabolite is None or not self.get_flow(to_central, metabolite):\n                    continue", "                if metabolite is None or not self.get_flow(to_central, metabolite):\n                    break"), 'T5', 'search stops at a rejected candidate'),
